@@ -218,7 +218,7 @@ theorem fl_exact_nat (k : Int) (hk : 0 ≤ k) (hlt : (k:Rat) < pow2 53) : fl (k 
 
 /-- decoding an exactly stored integer microsecond count (`datetime.fromtimestamp(m / 1e6)`):
     exact for every instant from 1970 up to 2^32 s (year 2106) -/
-theorem decF_exact (m : Int) (h0 : 0 ≤ m) (h1 : m < 4294967296000000) : decF (m : Rat) = m := by
+theorem decFNonneg_exact (m : Int) (h0 : 0 ≤ m) (h1 : m < 4294967296000000) : decFNonneg (m : Rat) = m := by
   -- q = m / 10^6, rho = m % 10^6
   set q : Int := m / 1000000 with hq
   set ρ : Int := m % 1000000 with hρ
@@ -238,7 +238,7 @@ theorem decF_exact (m : Int) (h0 : 0 ≤ m) (h1 : m < 4294967296000000) : decF (
   have hq1' : (q:Rat) ≤ 4294967295 := by exact_mod_cast (by omega : q ≤ 4294967295)
   have hρ0' : (0:Rat) ≤ ρ := by exact_mod_cast hρ0
   have hρ1' : (ρ:Rat) ≤ 999999 := by exact_mod_cast (by omega : ρ ≤ 999999)
-  unfold decF
+  unfold decFNonneg
   simp only [floor_eq]
   by_cases hz : m = 0
   · subst hz; simp [fl, rne, floor_eq]
@@ -341,15 +341,36 @@ theorem trunc_err (r : Rat) : |r - (trunc r : Rat)| < 1 := by
 
 /-- for a non-negative double, `timedelta(seconds=r)` and `fromtimestamp(r)` do the same
     arithmetic -/
+theorem decF_of_nonneg (m : Rat) (h : 0 ≤ m) : decF m = decFNonneg m := by
+  unfold decF; rw [if_neg (not_lt.mpr h)]
+
+/-- decoding an exactly stored integer microsecond count (`datetime.fromtimestamp(m / 1e6)`):
+    exact for every instant within 2^32 s of the epoch, on either side (1833 … 2106) -/
+theorem decF_exact (m : Int) (h0 : -4294967296000000 < m) (h1 : m < 4294967296000000) :
+    decF (m : Rat) = m := by
+  unfold decF
+  split
+  · rename_i hneg
+    have hm : m < 0 := by exact_mod_cast hneg
+    have := decFNonneg_exact (-m) (by omega) (by omega)
+    rw [Int.cast_neg] at this
+    rw [this]; omega
+  · rename_i hnn
+    have hm : 0 ≤ m := by
+      have : (0 : Rat) ≤ m := not_lt.mp hnn
+      exact_mod_cast this
+    exact decFNonneg_exact m hm h1
+
 theorem decF_eq_td (m : Rat) (h : 0 ≤ m) : decF m = tdOfSeconds (fl (m / 1000000)) := by
   have hr : 0 ≤ fl (m / 1000000) := fl_nonneg _ (by positivity)
-  unfold decF tdOfSeconds modf fmul
+  rw [decF_of_nonneg m h]
+  unfold decFNonneg tdOfSeconds modf fmul
   simp only [trunc_of_nonneg _ hr, floor_eq]
 
 /-- `timedelta(seconds=td.total_seconds()) == td` for every `0 ≤ td < 2^32 s` (136 years) -/
 theorem td_total_roundtrip (D : Int) (h0 : 0 ≤ D) (h1 : D < 4294967296000000) :
     tdOfSeconds (totalSeconds D) = D := by
-  have := decF_exact D h0 h1
+  have := decF_exact D (by omega) h1
   rw [decF_eq_td _ (by exact_mod_cast h0)] at this
   exact this
 
